@@ -1,6 +1,580 @@
-//! C05 — not built yet (stub; replaced by the real check).
+//! C05 — amount verification rejects every tampered or unbalanced transaction.
+use std::collections::BTreeMap;
+
+use elements::confidential::{Asset, AssetBlindingFactor, Nonce, Value, ValueBlindingFactor};
+use elements::encode::deserialize;
+use elements::secp256k1_zkp::{Generator, PedersenCommitment, RangeProof, SurjectionProof};
+use elements::{AssetId, AssetIssuance, BlindAssetProofs, BlindValueProofs, LockTime, OutPoint, Script, Sequence, Transaction, TxIn, TxInWitness, TxOut, TxOutWitness, VerificationError};
+use rand::SeedableRng;
+use rand_chacha::ChaCha20Rng;
+use serde_json::json;
+
+use super::c04;
 use crate::engine::*;
+use crate::gen::ct::{self, CtCase};
+use crate::gen::{self, pool, secp};
+use crate::{ensure, ensure_eq};
+
+pub const KF_ZERO_OPRETURN: &str = "verify-rejects-zero-value-output-on-unspendable-script";
+
+fn verify(tx: &Transaction, spent: &[TxOut]) -> Result<Result<(), VerificationError>, Failure> {
+    guard::guard("verify_tx_amt_proofs", 0, || tx.verify_tx_amt_proofs(secp(), spent))
+}
+
+/// every tamper must turn a verifying (tx, spent) into an error
+struct Tamper {
+    class: &'static str,
+    tx: Transaction,
+    spent: Vec<TxOut>,
+    /// Some(..) when a specific error variant is required
+    must_be_len_mismatch: bool,
+}
+
+fn corrupt_rangeproof(t: &mut Tape, p: &RangeProof) -> Option<RangeProof> {
+    let mut b = p.serialize();
+    if b.len() < 80 {
+        return None;
+    }
+    // corrupt inside the proof body (the header decides parseability)
+    let pos = t.range(70, b.len() - 1);
+    b[pos] ^= 1 << t.below(8);
+    RangeProof::from_slice(&b).ok().filter(|q| q != p)
+}
+fn corrupt_surjproof(t: &mut Tape, p: &SurjectionProof) -> Option<SurjectionProof> {
+    let mut b = p.serialize();
+    if b.len() < 40 {
+        return None;
+    }
+    let pos = t.range(b.len() / 2, b.len() - 1);
+    b[pos] ^= 1 << t.below(8);
+    SurjectionProof::from_slice(&b).ok().filter(|q| q != p)
+}
+
+/// the surjection domain size amount verification will see
+fn domain_size(tx: &Transaction) -> usize {
+    tx.input
+        .iter()
+        .map(|i| 1 + usize::from(!i.asset_issuance.amount.is_null()) + usize::from(!i.asset_issuance.inflation_keys.is_null()))
+        .sum()
+}
+
+fn tampers(t: &mut Tape, tx: &Transaction, spent: &[TxOut], ctx: &mut Ctx) -> Vec<Tamper> {
+    let p = pool();
+    let mut out: Vec<Tamper> = Vec::new();
+    let mut push = |class: &'static str, tx2: Transaction, spent2: Vec<TxOut>, len: bool, out: &mut Vec<Tamper>, ctx: &mut Ctx| {
+        if &tx2 == tx && spent2 == spent {
+            ctx.class("tamper:skipped-no-op");
+        } else {
+            out.push(Tamper { class, tx: tx2, spent: spent2, must_be_len_mismatch: len });
+        }
+    };
+    let n = tx.output.len();
+    let conf: Vec<usize> = (0..n).filter(|&i| tx.output[i].value.is_confidential()).collect();
+    for i in 0..n {
+        let o = &tx.output[i];
+        // explicit amount +-1, explicit asset replaced
+        if let Value::Explicit(v) = o.value {
+            let mut a = tx.clone();
+            a.output[i].value = Value::Explicit(v.wrapping_add(1));
+            push("explicit-amount+1", a, spent.to_vec(), false, &mut out, ctx);
+            if v > 1 {
+                let mut b = tx.clone();
+                b.output[i].value = Value::Explicit(v - 1);
+                push("explicit-amount-1", b, spent.to_vec(), false, &mut out, ctx);
+            }
+        }
+        if let Asset::Explicit(a) = o.asset {
+            let mut b = tx.clone();
+            let other = p.assets.iter().find(|x| **x != a).copied().unwrap_or(AssetId::LIQUID_BTC);
+            b.output[i].asset = Asset::Explicit(other);
+            push("explicit-asset-replaced", b, spent.to_vec(), false, &mut out, ctx);
+        }
+        if o.value.is_confidential() {
+            // commitment replaced by another valid one
+            let mut a = tx.clone();
+            let c = p.commitments[t.below(p.commitments.len())];
+            a.output[i].value = Value::Confidential(c);
+            push("value-commitment-replaced", a, spent.to_vec(), false, &mut out, ctx);
+            // proofs removed / corrupted
+            let mut b = tx.clone();
+            b.output[i].witness.rangeproof = None;
+            push("rangeproof-removed", b, spent.to_vec(), false, &mut out, ctx);
+            if let Some(rp) = &o.witness.rangeproof {
+                if let Some(bad) = corrupt_rangeproof(t, rp) {
+                    let mut c = tx.clone();
+                    c.output[i].witness.rangeproof = Some(Box::new(bad));
+                    push("rangeproof-corrupted", c, spent.to_vec(), false, &mut out, ctx);
+                } else {
+                    ctx.class("tamper:skipped-corruption-unparseable");
+                }
+            }
+            // script of a blinded output changed
+            let mut d = tx.clone();
+            let mut sb = d.output[i].script_pubkey.to_bytes();
+            let k = t.below(sb.len().max(1));
+            if sb.is_empty() {
+                sb.push(0x51)
+            } else {
+                sb[k] ^= 1 << t.below(8)
+            }
+            d.output[i].script_pubkey = Script::from(sb);
+            push("blinded-output-script-changed", d, spent.to_vec(), false, &mut out, ctx);
+        }
+        if o.asset.is_confidential() {
+            let mut a = tx.clone();
+            let g = p.generators[t.below(p.generators.len())];
+            a.output[i].asset = Asset::Confidential(g);
+            push("asset-commitment-replaced", a, spent.to_vec(), false, &mut out, ctx);
+            let mut b = tx.clone();
+            b.output[i].witness.surjection_proof = None;
+            push("surjectionproof-removed", b, spent.to_vec(), false, &mut out, ctx);
+            if let Some(sp) = &o.witness.surjection_proof {
+                if let Some(bad) = corrupt_surjproof(t, sp) {
+                    let mut c = tx.clone();
+                    c.output[i].witness.surjection_proof = Some(Box::new(bad));
+                    push("surjectionproof-corrupted", c, spent.to_vec(), false, &mut out, ctx);
+                } else {
+                    ctx.class("tamper:skipped-corruption-unparseable");
+                }
+            }
+        }
+    }
+    // exchanges between two confidential outputs
+    for w in conf.windows(2) {
+        let (i, j) = (w[0], w[1]);
+        let mut a = tx.clone();
+        let (vi, vj) = (a.output[i].value, a.output[j].value);
+        a.output[i].value = vj;
+        a.output[j].value = vi;
+        push("value-commitments-exchanged", a, spent.to_vec(), false, &mut out, ctx);
+        let mut b = tx.clone();
+        let (ai, aj) = (b.output[i].asset, b.output[j].asset);
+        b.output[i].asset = aj;
+        b.output[j].asset = ai;
+        push("asset-commitments-exchanged", b, spent.to_vec(), false, &mut out, ctx);
+        let mut c = tx.clone();
+        let (ri, rj) = (c.output[i].witness.rangeproof.clone(), c.output[j].witness.rangeproof.clone());
+        c.output[i].witness.rangeproof = rj;
+        c.output[j].witness.rangeproof = ri;
+        push("rangeproofs-exchanged", c, spent.to_vec(), false, &mut out, ctx);
+        let mut d = tx.clone();
+        let (si, sj) = (d.output[i].witness.surjection_proof.clone(), d.output[j].witness.surjection_proof.clone());
+        d.output[i].witness.surjection_proof = sj;
+        d.output[j].witness.surjection_proof = si;
+        push("surjectionproofs-exchanged", d, spent.to_vec(), false, &mut out, ctx);
+    }
+    // issuance amount changed
+    for (k, inp) in tx.input.iter().enumerate() {
+        if let Value::Explicit(v) = inp.asset_issuance.amount {
+            let mut a = tx.clone();
+            a.input[k].asset_issuance.amount = Value::Explicit(v + 1);
+            push("issuance-amount-changed", a, spent.to_vec(), false, &mut out, ctx);
+        }
+        if let Value::Explicit(v) = inp.asset_issuance.inflation_keys {
+            let mut a = tx.clone();
+            a.input[k].asset_issuance.inflation_keys = Value::Explicit(v + 1);
+            push("issuance-inflation-keys-changed", a, spent.to_vec(), false, &mut out, ctx);
+        }
+    }
+    // different spent outputs
+    for k in 0..spent.len() {
+        let mut s = spent.to_vec();
+        match s[k].value {
+            Value::Explicit(v) => s[k].value = Value::Explicit(v + 1),
+            Value::Confidential(_) => s[k].value = Value::Confidential(p.commitments[t.below(p.commitments.len())]),
+            Value::Null => {}
+        }
+        push("spent-output-value-altered", tx.clone(), s, false, &mut out, ctx);
+    }
+    // wrong count
+    {
+        let mut s = spent.to_vec();
+        if t.bool() || s.is_empty() {
+            s.push(spent.first().cloned().unwrap_or_default());
+        } else {
+            s.pop();
+        }
+        out.push(Tamper { class: "spent-outputs-wrong-count", tx: tx.clone(), spent: s, must_be_len_mismatch: true });
+    }
+    // permutation: only where it is necessarily detectable (every domain element takes part in each
+    // surjection proof, i.e. domain size <= 3, and the exchanged outputs differ in asset generator)
+    if spent.len() >= 2 && domain_size(tx) <= 3 && !conf.is_empty() {
+        let mut s = spent.to_vec();
+        if s[0].asset != s[1].asset {
+            s.swap(0, 1);
+            out.push(Tamper { class: "spent-outputs-permuted", tx: tx.clone(), spent: s, must_be_len_mismatch: false });
+        } else {
+            ctx.class("tamper:skipped-permutation-same-asset");
+        }
+    } else if spent.len() >= 2 {
+        ctx.class("tamper:skipped-permutation-not-necessarily-detectable");
+    }
+    out
+}
+
+fn run_tampers(t: &mut Tape, tx: &Transaction, spent: &[TxOut], base_sig: &str, ctx: &mut Ctx) -> R {
+    let base = verify(tx, spent)?;
+    ctx.eval();
+    if let Err(e) = base {
+        return Err(Failure::new(format!("base transaction ({}) does not verify: {} ({:?})", base_sig, e, e)));
+    }
+    for tm in tampers(t, tx, spent, ctx) {
+        let r = verify(&tm.tx, &tm.spent)?;
+        ctx.eval();
+        match r {
+            Ok(()) => {
+                return Err(Failure::new(format!(
+                    "amount verification still succeeds after tamper `{}` of a verifying transaction ({})\n tx outputs={} inputs={}",
+                    tm.class,
+                    base_sig,
+                    tx.output.len(),
+                    tx.input.len()
+                )));
+            }
+            Err(e) => {
+                if tm.must_be_len_mismatch {
+                    ensure!(e == VerificationError::UtxoInputLenMismatch, "a spent-output list of the wrong length is rejected as {:?}, not as UtxoInputLenMismatch", e);
+                }
+                ctx.class(&format!("tamper:{}", tm.class));
+                ctx.nontrivial(&(base_sig, tm.class, crate::refimpl::enc::tx_full(&tm.tx), tm.spent.len()));
+            }
+        }
+    }
+    Ok(())
+}
+
+fn tamper_generated(t: &mut Tape, ctx: &mut Ctx) -> R {
+    let case: CtCase = ct::gen_ct_case(t, false);
+    let (tx, _map) = c04::blind_case(&case)?;
+    let sig = format!("generated:{}", hex(&case.rng_seed[..8]));
+    if ctx.wants_sample("generated-base") {
+        ctx.sample("generated-base", || c04::describe(&case));
+    }
+    run_tampers(t, &tx, &case.spent, &sig, ctx)
+}
+
+/// the repository's real-network vector: tests/data/issue_tx.hex with its spent outputs (from the
+/// `issuance` doc/unit test) is not self-contained offline; the doc-test transaction of
+/// verify_tx_amt_proofs is, and so are the blinded forms of the generated cases.
+fn repo_vectors(idx: u64, seed: u64, ctx: &mut Ctx) -> R {
+    let vecs = verify_vectors();
+    let (name, tx_hex, spent_hex) = &vecs[idx as usize % vecs.len()];
+    let tx: Transaction = match unhex(tx_hex).and_then(|b| deserialize(&b).ok()) {
+        Some(t) => t,
+        None => return Err(Failure::panic(format!("vector {} does not decode", name), "src/props/c05.rs".into())),
+    };
+    let mut spent = Vec::new();
+    for s in spent_hex {
+        match unhex(s).and_then(|b| deserialize::<TxOut>(&b).ok()) {
+            Some(o) => spent.push(o),
+            None => return Err(Failure::panic(format!("vector {} spent output does not decode", name), "src/props/c05.rs".into())),
+        }
+    }
+    let rnd = seeded_bytes(seed, idx, 2048);
+    let mut t = Tape::new(&rnd);
+    ctx.class(&format!("vector:{}", name));
+    run_tampers(&mut t, &tx, &spent, name, ctx)
+}
+
+pub fn verify_vectors() -> Vec<(String, String, Vec<String>)> {
+    let path = format!("{}/corpus/verify_vectors.json", VERIF_DIR);
+    let mut out = Vec::new();
+    if let Ok(s) = std::fs::read_to_string(&path) {
+        if let Ok(v) = serde_json::from_str::<serde_json::Value>(&s) {
+            if let Some(a) = v.as_array() {
+                for e in a {
+                    let name = e.get("name").and_then(|x| x.as_str()).unwrap_or("?").to_string();
+                    let tx = e.get("tx").and_then(|x| x.as_str()).unwrap_or("").to_string();
+                    let sp = e.get("spent").and_then(|x| x.as_array()).map(|a| a.iter().filter_map(|x| x.as_str().map(String::from)).collect()).unwrap_or_default();
+                    out.push((name, tx, sp));
+                }
+            }
+        }
+    }
+    out
+}
+
+// ---- all-explicit transactions ---------------------------------------------------------------
+
+fn unspendable_script(t: &mut Tape) -> Script {
+    if t.chance(40) {
+        // larger than the maximum script size
+        Script::from(vec![0x51; 10_001])
+    } else if t.chance(60) {
+        // the empty script (fee output) counts as unspendable in Elements (CScript::IsUnspendable)
+        Script::new()
+    } else {
+        let n = t.below(30);
+        let mut v = vec![0x6a];
+        if n > 0 {
+            v.push(n as u8);
+            v.extend(t.bytes(n));
+        }
+        Script::from(v)
+    }
+}
+
+fn explicit_balance(t: &mut Tape, ctx: &mut Ctx) -> R {
+    let p = pool();
+    let n_assets = 1 + t.below(3);
+    let n_in = 1 + t.below(4);
+    let mut input = Vec::new();
+    let mut spent = Vec::new();
+    let mut totals: BTreeMap<AssetId, u128> = BTreeMap::new();
+    for _ in 0..n_in {
+        let asset = p.assets[t.below(n_assets)];
+        let value = ct::gen_amount(t);
+        *totals.entry(asset).or_insert(0) += u128::from(value);
+        spent.push(TxOut { asset: Asset::Explicit(asset), value: Value::Explicit(value), nonce: Nonce::Null, script_pubkey: ct::std_script(t), witness: TxOutWitness::empty() });
+        let mut txin = TxIn {
+            previous_output: OutPoint { txid: gen::gen_txid(t), vout: gen::gen_vout(t) },
+            is_pegin: false,
+            script_sig: Script::new(),
+            sequence: Sequence::MAX,
+            asset_issuance: AssetIssuance::null(),
+            witness: TxInWitness::empty(),
+        };
+        if t.chance(50) {
+            let amount = ct::gen_amount(t);
+            let reissue = t.bool();
+            txin.asset_issuance = AssetIssuance {
+                asset_blinding_nonce: if reissue { gen::gen_tweak(t) } else { elements::secp256k1_zkp::ZERO_TWEAK },
+                asset_entropy: t.arr32(),
+                amount: Value::Explicit(amount),
+                inflation_keys: Value::Null,
+            };
+            let (aid, tid) = txin.issuance_ids();
+            *totals.entry(aid).or_insert(0) += u128::from(amount);
+            if !reissue && t.bool() {
+                let k = ct::gen_amount(t);
+                txin.asset_issuance.inflation_keys = Value::Explicit(k);
+                *totals.entry(tid).or_insert(0) += u128::from(k);
+            }
+        }
+        input.push(txin);
+    }
+    // outputs: exact split, then optionally an imbalance and zero-value outputs
+    let mut output = Vec::new();
+    for (asset, total) in &totals {
+        let mut rest = u64::try_from(*total).unwrap_or(u64::MAX);
+        let parts = 1 + t.below(rest.min(3) as usize);
+        for k in 0..parts {
+            let v = if k + 1 == parts { rest } else { 1 + ((u128::from(t.u64()) * u128::from(rest - (parts - k - 1) as u64 - 1)) >> 64) as u64 };
+            rest -= v;
+            let fee = t.chance(60);
+            output.push(TxOut { asset: Asset::Explicit(*asset), value: Value::Explicit(v), nonce: Nonce::Null, script_pubkey: if fee { Script::new() } else { ct::std_script(t) }, witness: TxOutWitness::empty() });
+        }
+    }
+    let mut balanced = true;
+    let mut zero_on_spendable = false;
+    let mut zero_on_unspendable = false;
+    match t.below(6) {
+        0 => {
+            // off by a delta on one output
+            let k = t.below(output.len());
+            if let Value::Explicit(v) = output[k].value {
+                let delta = 1 + u64::from(t.u8());
+                let nv = if t.bool() { v.saturating_add(delta) } else { v.saturating_sub(delta).max(1) };
+                if nv != v {
+                    output[k].value = Value::Explicit(nv);
+                    balanced = false;
+                }
+            }
+        }
+        1 => {
+            // an output of an asset nobody pays in
+            let other = p.assets.iter().find(|a| !totals.contains_key(*a)).copied();
+            if let Some(a) = other {
+                output.push(TxOut { asset: Asset::Explicit(a), value: Value::Explicit(ct::gen_amount(t)), nonce: Nonce::Null, script_pubkey: ct::std_script(t), witness: TxOutWitness::empty() });
+                balanced = false;
+            }
+        }
+        2 => {
+            // drop an output
+            if output.len() > 1 {
+                let k = t.below(output.len());
+                output.remove(k);
+                balanced = false;
+            }
+        }
+        _ => {}
+    }
+    match t.below(5) {
+        0 => {
+            let asset = *totals.keys().next().unwrap_or(&p.assets[0]);
+            output.push(TxOut { asset: Asset::Explicit(asset), value: Value::Explicit(0), nonce: Nonce::Null, script_pubkey: unspendable_script(t), witness: TxOutWitness::empty() });
+            zero_on_unspendable = true;
+        }
+        1 => {
+            let asset = *totals.keys().next().unwrap_or(&p.assets[0]);
+            let spk = ct::std_script(t);
+            output.push(TxOut { asset: Asset::Explicit(asset), value: Value::Explicit(0), nonce: Nonce::Null, script_pubkey: spk, witness: TxOutWitness::empty() });
+            zero_on_spendable = true;
+        }
+        _ => {}
+    }
+    for i in (1..output.len()).rev() {
+        let k = t.below(i + 1);
+        output.swap(i, k);
+    }
+    let tx = Transaction { version: 2, lock_time: LockTime::ZERO, input, output };
+    // the harness's own per-asset balance
+    let mut bal: BTreeMap<AssetId, i128> = BTreeMap::new();
+    for (a, v) in &totals {
+        *bal.entry(*a).or_insert(0) += *v as i128;
+    }
+    for o in &tx.output {
+        if let (Asset::Explicit(a), Value::Explicit(v)) = (o.asset, o.value) {
+            *bal.entry(a).or_insert(0) -= v as i128;
+        }
+    }
+    let own_balanced = bal.values().all(|v| *v == 0);
+    ensure_eq!(own_balanced, balanced, "generator bookkeeping");
+    let should_verify = own_balanced && !zero_on_spendable;
+    let r = verify(&tx, &spent)?;
+    ctx.eval();
+    let cls = format!(
+        "explicit:{}{}{}",
+        if balanced { "balanced" } else { "unbalanced" },
+        if zero_on_unspendable { "+zero-on-unspendable" } else { "" },
+        if zero_on_spendable { "+zero-on-spendable" } else { "" }
+    );
+    match (&r, should_verify) {
+        (Ok(()), true) | (Err(_), false) => {}
+        (Err(e), true) => {
+            let only_zero = zero_on_unspendable
+                && matches!(e, VerificationError::SpentTxOutError(_, elements::TxOutError::ZeroValueCommitment) | VerificationError::TxOutError(_, elements::TxOutError::ZeroValueCommitment));
+            if only_zero && ctx.is_known(KF_ZERO_OPRETURN) {
+                ctx.class("known:zero-value-unspendable-output-rejected");
+            } else {
+                return Err(Failure::new(format!(
+                    "a balanced all-explicit transaction is rejected: {} ({:?}) [{}]\n outputs={:?}",
+                    e,
+                    e,
+                    cls,
+                    tx.output.iter().map(|o| (o.value.explicit(), o.script_pubkey.len(), o.script_pubkey.is_provably_unspendable())).collect::<Vec<_>>()
+                )));
+            }
+        }
+        (Ok(()), false) => {
+            return Err(Failure::new(format!(
+                "an all-explicit transaction verifies although {} [{}]\n balance={:?}",
+                if !own_balanced { "inputs plus issuances differ from outputs plus fees" } else { "it has a zero-value output on a spendable script" },
+                cls,
+                bal
+            )));
+        }
+    }
+    ctx.class(&cls);
+    if tx.input.len() >= 2 || !balanced || zero_on_spendable || zero_on_unspendable {
+        ctx.nontrivial(&crate::refimpl::enc::tx_full(&tx));
+    }
+    if ctx.wants_sample(&cls) {
+        ctx.sample(&cls, || json!({"inputs": tx.input.len(), "issuances": tx.input.iter().filter(|i| i.has_issuance()).count(),
+            "outputs": tx.output.iter().map(|o| json!({"value": o.value.explicit(), "script_len": o.script_pubkey.len()})).collect::<Vec<_>>(),
+            "verifies": r.is_ok()}));
+    }
+    // wrong length is reported as such
+    let mut s2 = spent.clone();
+    s2.push(TxOut::default());
+    let r2 = verify(&tx, &s2)?;
+    ensure!(r2 == Err(VerificationError::UtxoInputLenMismatch), "spent-output list of the wrong length: {:?}", r2);
+    Ok(())
+}
+
+fn exact_proofs(t: &mut Tape, ctx: &mut Ctx) -> R {
+    let p = pool();
+    let mut rng = ChaCha20Rng::from_seed(t.arr32());
+    let asset = p.assets[t.below(p.assets.len())];
+    let other_asset = p.assets.iter().find(|a| **a != asset).copied().unwrap_or(AssetId::LIQUID_BTC);
+    let value = ct::gen_amount(t);
+    let abf: AssetBlindingFactor = ct::abf_from(t, 1);
+    let vbf: ValueBlindingFactor = ct::vbf_from(t, 2);
+    let gen = match Asset::new_confidential(secp(), asset, abf) {
+        Asset::Confidential(g) => g,
+        _ => return Err(Failure::new("new_confidential did not give a commitment".to_string())),
+    };
+    let comm = match Value::new_confidential_from_assetid(secp(), value, asset, vbf, abf) {
+        Value::Confidential(c) => c,
+        _ => return Err(Failure::new("new_confidential_from_assetid did not give a commitment".to_string())),
+    };
+    let vp = guard::guard("blind_value_proof", 0, || RangeProof::blind_value_proof(&mut rng, secp(), value, comm, gen, vbf))?;
+    let vp = match vp {
+        Ok(p) => p,
+        Err(e) => return Err(Failure::new(format!("blind_value_proof failed: {}", e))),
+    };
+    let ok = |v: u64, g: Generator, c: PedersenCommitment| guard::guard("blind_value_proof_verify", 0, || vp.blind_value_proof_verify(secp(), v, g, c));
+    ensure!(ok(value, gen, comm)?, "exact-value proof does not verify for the right (value, generator, commitment)");
+    ensure!(!ok(value + 1, gen, comm)?, "exact-value proof verifies for value+1");
+    if value > 1 {
+        ensure!(!ok(value - 1, gen, comm)?, "exact-value proof verifies for value-1");
+    }
+    let other_comm = p.commitments[t.below(p.commitments.len())];
+    if other_comm != comm {
+        ensure!(!ok(value, gen, other_comm)?, "exact-value proof verifies for another commitment");
+    }
+    let other_gen = p.generators[t.below(p.generators.len())];
+    if other_gen != gen {
+        ensure!(!ok(value, other_gen, comm)?, "exact-value proof verifies for another generator");
+    }
+    ctx.evals_n(5);
+    let ap = guard::guard("blind_asset_proof", 0, || SurjectionProof::blind_asset_proof(&mut rng, secp(), asset, abf))?;
+    let ap = match ap {
+        Ok(p) => p,
+        Err(e) => return Err(Failure::new(format!("blind_asset_proof failed: {}", e))),
+    };
+    let aok = |a: AssetId, g: Generator| guard::guard("blind_asset_proof_verify", 0, || ap.blind_asset_proof_verify(secp(), a, g));
+    ensure!(aok(asset, gen)?, "exact-asset proof does not verify for the right (asset, commitment)");
+    ensure!(!aok(other_asset, gen)?, "exact-asset proof verifies for another asset");
+    if other_gen != gen {
+        ensure!(!aok(asset, other_gen)?, "exact-asset proof verifies for another commitment");
+    }
+    ctx.evals_n(3);
+    ctx.class("exact-proofs");
+    ctx.nontrivial(&(value, hex(&gen.serialize())));
+    Ok(())
+}
+
+fn repro_zero_opreturn() -> bool {
+    let a = pool().assets[0];
+    let spent = TxOut { asset: Asset::Explicit(a), value: Value::Explicit(10), nonce: Nonce::Null, script_pubkey: Script::new(), witness: TxOutWitness::empty() };
+    let tx = Transaction {
+        version: 2,
+        lock_time: LockTime::ZERO,
+        input: vec![TxIn::default()],
+        output: vec![
+            TxOut { asset: Asset::Explicit(a), value: Value::Explicit(10), nonce: Nonce::Null, script_pubkey: Script::new(), witness: TxOutWitness::empty() },
+            TxOut { asset: Asset::Explicit(a), value: Value::Explicit(0), nonce: Nonce::Null, script_pubkey: Script::from(vec![0x6a]), witness: TxOutWitness::empty() },
+        ],
+    };
+    tx.verify_tx_amt_proofs(secp(), &[spent]).is_err()
+}
 
 pub fn property() -> Property {
-    Property { id: "C05", rule: "", assumptions: &[], subs: vec![], known: vec![] }
+    Property {
+        id: "C05",
+        rule: "tamper_generated: verifying bases = blinded C04 cases; for each base EVERY applicable position of every tamper \
+               class of the statement (explicit amount +-1, explicit asset replaced, value / asset commitment replaced or \
+               exchanged, range / surjection proof removed, exchanged or byte-corrupted (kept only if it still parses), \
+               script of a blinded output changed, issuance amounts changed, spent output value altered, spent outputs \
+               permuted (only where necessarily detectable: domain <= 3), wrong count => UtxoInputLenMismatch); no-op \
+               tampers skipped and counted; oracle: verification returns Err. vectors: the repository's verifying \
+               transactions with the same tampers. explicit_balance: all-explicit transactions (inputs + issuances vs \
+               outputs + fees per asset, balanced / off by delta / foreign asset / dropped output, zero-value outputs on \
+               provably unspendable vs spendable scripts); oracle: verifies <=> harness per-asset balance holds and every \
+               zero-value output is provably unspendable. exact_proofs: blind_value_proof / blind_asset_proof verify for the \
+               right data and not for value+-1, other commitment, other generator / asset. Non-trivial: base verifies and \
+               the tamper changes >= 1 byte; distinct by (base, class, tampered encoding).",
+        assumptions: &[
+            "secp256k1-zkp is the trusted base; cryptographic negatives hold with overwhelming probability",
+            "zero-value outputs only on scripts whose (un)spendability is unambiguous: OP_RETURN-first or > 10000 bytes vs standard templates / empty",
+        ],
+        subs: vec![
+            Sub { name: "tamper_generated", kind: Kind::Tape { max_len: 3000, quick: 500, thorough: 15_000, f: tamper_generated } },
+            Sub { name: "vectors", kind: Kind::Index { count: |t| t.pick(8, 120), exhaustive: false, f: repo_vectors } },
+            Sub { name: "explicit_balance", kind: Kind::Tape { max_len: 2500, quick: 20_000, thorough: 500_000, f: explicit_balance } },
+            Sub { name: "exact_proofs", kind: Kind::Tape { max_len: 600, quick: 1_500, thorough: 40_000, f: exact_proofs } },
+        ],
+        known: vec![Known { key: KF_ZERO_OPRETURN, what: "a balanced explicit transaction with a zero-value output on a provably unspendable script is rejected (ZeroValueCommitment)", repro: repro_zero_opreturn }],
+    }
 }
